@@ -1,168 +1,276 @@
+// TestTriedbProbe: directed replays of the minimal history of each deviation of pathdb from the
+// repaired design of PathDB.tla, on the real code. The result tells the driver which model describes
+// THIS code (the Fix* switches of the behaviours it generates) and reports each deviation that is
+// present under its own key.
 package triedb
 
 import (
 	"fmt"
 	"testing"
 
-	"github.com/NethermindEth/juno/core/crypto"
 	"github.com/NethermindEth/juno/core/felt"
-	"github.com/NethermindEth/juno/core/trie2"
 	"github.com/NethermindEth/juno/core/trie2/triedb/pathdb"
-	"github.com/NethermindEth/juno/core/trie2/trienode"
 	"github.com/NethermindEth/juno/core/trie2/trieutils"
 	"github.com/NethermindEth/juno/db"
 	"github.com/NethermindEth/juno/db/memory"
-	_ "github.com/NethermindEth/juno/encoder/registry"
+
+	"verifharness/internal/vh"
 )
 
-var stateVersion = new(felt.Felt).SetBytes([]byte(`STARKNET_STATE_V0`))
+type probeInput struct {
+	Probe string `json:"probe,omitempty"` // replay: only this one
+}
 
-func f(x uint64) *felt.Felt { return felt.NewFromUint64[felt.Felt](x) }
-
-type pw struct {
+type probeWorld struct {
+	*world
 	disk db.KeyValueStore
-	d    *pathdb.Database
+	pdb  *pathdb.Database
+	n    int
 }
 
-// apply: open class+contract tries at parent, apply updates, commit, Update layer; returns new root
-func (w *pw) apply(parent felt.StateRootHash, blk uint64, cls, ct map[uint64]uint64) (felt.StateRootHash, error) {
-	ctr, err := trie2.New(trieutils.NewContractTrieID(parent), 251, crypto.Pedersen, w.d)
+func newProbeWorld() (*probeWorld, error) {
+	v := smallVariant(3, 1, "memory")
+	disk := memory.New()
+	d, err := pathdb.New(disk, nil)
 	if err != nil {
-		return parent, fmt.Errorf("open ct: %w", err)
+		return nil, err
 	}
-	clt, err := trie2.New(trieutils.NewClassTrieID(parent), 251, crypto.Poseidon, w.d)
-	if err != nil {
-		return parent, fmt.Errorf("open cl: %w", err)
-	}
-	for k, v := range ct {
-		if err := ctr.Update(f(k), f(v)); err != nil {
-			return parent, err
-		}
-	}
-	for k, v := range cls {
-		if err := clt.Update(f(k), f(v)); err != nil {
-			return parent, err
-		}
-	}
-	cr, cn := ctr.Commit()
-	lr, ln := clt.Commit()
-	var root felt.StateRootHash
-	if !(cr.IsZero() && lr.IsZero()) {
-		root = felt.StateRootHash(crypto.PoseidonElems(stateVersion, &cr, &lr))
-	}
-	var mc, ml *trienode.MergeNodeSet
-	if cn != nil {
-		mc = trienode.NewMergeNodeSet(cn)
-	}
-	if ln != nil {
-		ml = trienode.NewMergeNodeSet(ln)
-	}
-	p := parent
-	return root, w.d.Update(&root, &p, blk, ml, mc, nil)
+	return &probeWorld{world: newWorld(&v, 3), disk: disk, pdb: d}, nil
 }
 
-func (w *pw) get(root felt.StateRootHash, class bool, k uint64) string {
-	var tr *trie2.Trie
-	var err error
-	if class {
-		tr, err = trie2.New(trieutils.NewClassTrieID(root), 251, crypto.Poseidon, w.d)
-	} else {
-		tr, err = trie2.New(trieutils.NewContractTrieID(root), 251, crypto.Pedersen, w.d)
+func (p *probeWorld) reopen() (err error) {
+	p.pdb, err = pathdb.New(p.disk, nil)
+	return err
+}
+
+// update builds the next state on `parent` through real tries and registers it; returns its info
+func (p *probeWorld) update(parent *rootInfo, ch ...slot) (*rootInfo, error) {
+	p.n++
+	var pres []slot
+	tmp := parent.clone(p.n)
+	for _, c := range ch {
+		if c.V == 0 {
+			delete(tmp.kv[c.T], fmt.Sprint(c.K))
+		} else {
+			tmp.kv[c.T][fmt.Sprint(c.K)] = c.V
+		}
 	}
-	if err != nil {
-		return "open-err:" + err.Error()
+	for _, t := range trieNames {
+		for _, kb := range p.allKeys {
+			if x := tmp.kv[t][fmt.Sprint(kb)]; x != 0 {
+				pres = append(pres, slot{T: t, K: kb, V: x})
+			}
+		}
 	}
-	v, err := tr.Get(f(k))
+	ri, err := p.newRoot(p.n, parent, ch, pres, p.n)
 	if err != nil {
-		return "get-err:" + err.Error()
+		return nil, err
+	}
+	cm, err := p.applyChanges(p.pathOpener(p.pdb), parent, ch)
+	if err != nil {
+		return nil, err
+	}
+	pl := parent.label
+	if err := p.pdb.Update(&cm.label, &pl, uint64(p.n), cm.classSet, cm.contracts, nil); err != nil {
+		return nil, err
+	}
+	p.roots[p.n] = ri
+	return ri, nil
+}
+
+func (p *probeWorld) served(ri *rootInfo) bool {
+	_, err := p.pdb.NodeReader(p.trieID("ct", ri.label))
+	return err == nil
+}
+
+func (p *probeWorld) get(ri *rootInfo, t string, k []int) string {
+	tr, err := p.pathOpener(p.pdb)(t, ri)
+	if err != nil {
+		return "error: " + err.Error()
+	}
+	v, err := tr.Get(p.v.key(k))
+	if err != nil {
+		return "error: " + err.Error()
 	}
 	return v.String()
 }
 
-func TestPathProbe(t *testing.T) {
-	disk := memory.New()
-	d, err := pathdb.New(disk, nil)
+var (
+	k000 = []int{0, 0, 0}
+	k001 = []int{0, 0, 1}
+	k110 = []int{1, 1, 0}
+)
+
+// probeDiskRoot: a committed state must be served under its root by the next process (no journal).
+func probeDiskRoot() (present bool, d *vh.Divergence, err error) {
+	p, err := newProbeWorld()
 	if err != nil {
-		t.Fatal(err)
+		return false, nil, err
 	}
-	w := &pw{disk, d}
-	var zero felt.StateRootHash
-	r1, err := w.apply(zero, 1, map[uint64]uint64{1: 11}, map[uint64]uint64{5: 55, 6: 66})
-	fmt.Println("r1", r1.String(), err)
-	r2, err := w.apply(r1, 2, nil, map[uint64]uint64{5: 0, 7: 77})
-	fmt.Println("r2", r2.String(), err)
-	// fork from r1
-	r2b, err := w.apply(r1, 2, nil, map[uint64]uint64{6: 666})
-	fmt.Println("r2b", r2b.String(), err)
-	r3, err := w.apply(r2, 3, nil, map[uint64]uint64{8: 88})
-	fmt.Println("r3", r3.String(), err)
-	show := func(tag string) {
-		for _, r := range []felt.StateRootHash{zero, r1, r2, r2b, r3} {
-			fmt.Println(tag, short(r), "ct5", w.get(r, false, 5), "ct6", w.get(r, false, 6), "ct7", w.get(r, false, 7), "ct8", w.get(r, false, 8), "cl1", w.get(r, true, 1))
+	r1, err := p.update(p.roots[0], slot{"cl", k000, 1}, slot{"ct", k001, 2}, slot{"s1", k110, 1})
+	if err != nil {
+		return false, nil, err
+	}
+	if err := p.pdb.Commit(&r1.label); err != nil {
+		return false, nil, err
+	}
+	if err := p.reopen(); err != nil {
+		return false, nil, err
+	}
+	if p.served(r1) && p.get(r1, "ct", k001) == p.v.value(2).String() {
+		return false, nil, nil
+	}
+	zero := felt.StateRootHash{}
+	_, zerr := p.pdb.NodeReader(trieutils.NewContractTrieID(zero))
+	return true, &vh.Divergence{
+		Key: "triedb:pathdb:reopen-without-journal:committed-root-not-served",
+		What: "Update(r1) with class, contract and storage changes; Commit(r1); a new pathdb.New on the same disk without a journal (crash, or Close without " +
+			"Journal): NodeReader(r1) fails with 'layer not found'. journal.go getStateRoot labels the disk layer with Poseidon(version, Pedersen-hash of the " +
+			"contract root node, PEDERSEN-hash of the class root node) although the class trie is a Poseidon trie, and with 0 when either trie is empty: the " +
+			"persisted state cannot be opened under its state root after a crash",
+		Input: probeInput{Probe: "disk-root"}, Expected: "reader for " + r1.label.String(),
+		Observed: fmt.Sprintf("layer not found (zero root registered: %v)", zerr == nil),
+	}, nil
+}
+
+// probeStaleJournal: a journal of an earlier shutdown must not be loaded over a newer disk state.
+func probeStaleJournal() (present bool, d *vh.Divergence, err error) {
+	p, err := newProbeWorld()
+	if err != nil {
+		return false, nil, err
+	}
+	r1, err := p.update(p.roots[0], slot{"cl", k000, 1}, slot{"ct", k001, 1})
+	if err != nil {
+		return false, nil, err
+	}
+	if err := p.pdb.Commit(&r1.label); err != nil {
+		return false, nil, err
+	}
+	if err := p.pdb.Journal(&r1.label); err != nil { // graceful shutdown
+		return false, nil, err
+	}
+	_ = p.pdb.Close()
+	if err := p.reopen(); err != nil {
+		return false, nil, err
+	}
+	r2, err := p.update(r1, slot{"ct", k001, 2})
+	if err != nil {
+		return false, nil, err
+	}
+	if err := p.pdb.Commit(&r2.label); err != nil {
+		return false, nil, err
+	}
+	// crash: no Journal. The journal of the first shutdown is still on disk.
+	if err := p.reopen(); err != nil {
+		return false, nil, err
+	}
+	if !p.served(r1) {
+		return false, nil, nil
+	}
+	got := p.get(r1, "ct", k001)
+	return true, &vh.Divergence{
+		Key: "triedb:pathdb:stale-journal-loaded-after-crash:reads-mix-two-states",
+		What: "Commit(r1); Journal(r1); Close; New; Update(r2 = r1 with one contract slot changed); Commit(r2); crash; New: the journal written at the FIRST " +
+			"shutdown is still on disk (never deleted, never checked against the persisted state id) and is loaded: r1 is registered as the disk layer over the " +
+			"nodes of r2, r2 (durably committed) is unknown, and Get under root r1 returns r2's value",
+		Input: probeInput{Probe: "stale-journal"}, Expected: "r1 unknown or ct[001] = " + p.v.value(1).String() + " under r1; r2 served: true",
+		Observed: fmt.Sprintf("ct[001] under r1 = %s (r2's value is %s); r2 served: %v", got, p.v.value(2).String(), p.served(r2)),
+	}, nil
+}
+
+// probeRepeatedRoot: a root that occurs twice on the branch (block reverted, chain continued).
+// Public API only: the flatten is the one Update runs itself at 128 layers.
+func probeRepeatedRoot() (present bool, d *vh.Divergence, err error) {
+	p, err := newProbeWorld()
+	if err != nil {
+		return false, nil, err
+	}
+	r1, err := p.update(p.roots[0], slot{"cl", k000, 1}, slot{"ct", k001, 1})
+	if err != nil {
+		return false, nil, err
+	}
+	r2, err := p.update(r1, slot{"ct", k110, 1})
+	if err != nil {
+		return false, nil, err
+	}
+	r1b, err := p.update(r2, slot{"ct", k110, 0}) // block 2 reverted: the state root of block 1 again
+	if err != nil {
+		return false, nil, err
+	}
+	if r1b.label != r1.label {
+		return false, nil, fmt.Errorf("harness: reverted state has another root")
+	}
+	head := r1b
+	for i := 0; i < 140; i++ {
+		// all later states distinct: storage trie s1 holds the binary representation of i+1
+		var ch []slot
+		for b := 0; b < 8; b++ {
+			was, is := (i>>b)&1, ((i+1)>>b)&1
+			if was != is {
+				ch = append(ch, slot{"s1", []int{(b >> 2) & 1, (b >> 1) & 1, b & 1}, is})
+			}
 		}
+		next, err := p.update(head, ch...)
+		if err != nil {
+			return true, &vh.Divergence{
+				Key: "triedb:pathdb:flatten-drops-kept-branch:root-repeated-on-branch",
+				What: fmt.Sprintf("blocks 1, 2, revert of block 2 (state root of block 1 again), then %d more blocks, public API only: the next block cannot be built, "+
+					"its parent - the head just registered by a successful Update - is gone: %v. layertree.go cap finds stale links by the ROOT HASH of the parent: the "+
+					"entry of the repeated root is the flattened base, which goes stale at the next flatten, and every layer above the second occurrence is dropped", i, err),
+				Input: probeInput{Probe: "repeated-root"}, Expected: "head readable after Update returned nil", Observed: err.Error(),
+			}, nil
+		}
+		if !p.served(next) {
+			return true, &vh.Divergence{
+				Key: "triedb:pathdb:flatten-drops-kept-branch:root-repeated-on-branch",
+				What: fmt.Sprintf("blocks 1, 2, revert of block 2 (state root of block 1 again), then %d more blocks, public API only: Update of the head returns nil "+
+					"and the head is not registered any more (NodeReader: layer not found). layertree.go cap finds stale links by the ROOT HASH of the parent: the entry "+
+					"of the repeated root is the flattened base, which goes stale at the next flatten, and every layer above the second occurrence is dropped", i+1),
+				Input: probeInput{Probe: "repeated-root"}, Expected: "head readable after Update returned nil", Observed: "layer not found",
+			}, nil
+		}
+		head = next
 	}
-	show("before")
-	fmt.Println("cap(r3,1):", capLayers(d, &r3, 1))
-	show("after cap1")
-	// same-root update (empty block)
-	r3e, err := w.apply(r3, 4, nil, nil)
-	fmt.Println("r3e==r3", r3e == r3, err)
-	show("after empty")
-	fmt.Println("journal", d.Journal(&r3), "close", d.Close())
-	d2, err := pathdb.New(disk, nil)
-	fmt.Println("reopen", err)
-	w.d = d2
-	show("reopened")
-	r4, err := w.apply(r3, 5, nil, map[uint64]uint64{9: 99})
-	fmt.Println("r4", r4.String(), err)
-	fmt.Println("commit r4", d2.Commit(&r4))
-	fmt.Println("r4: ct9", w.get(r4, false, 9), "ct5", w.get(r4, false, 5))
-	// crash now (no journal): stale journal is still there
-	d3, err := pathdb.New(disk, nil)
-	fmt.Println("reopen after crash", err)
-	w.d = d3
-	show("after-crash")
-	fmt.Println("r4: ct9", w.get(r4, false, 9), "ct8", w.get(r4, false, 8))
-	fmt.Println("r3: ct9 (must be 0 or error)", w.get(r3, false, 9))
-
-	// crash without any journal: fresh
-	disk2 := memory.New()
-	dd, _ := pathdb.New(disk2, nil)
-	w2 := &pw{disk2, dd}
-	q1, err := w2.apply(zero, 1, map[uint64]uint64{1: 11}, map[uint64]uint64{5: 55, 6: 66})
-	fmt.Println("q1", q1.String(), err, "commit", dd.Commit(&q1))
-	dd2, err := pathdb.New(disk2, nil)
-	w2.d = dd2
-	fmt.Println("reopen nojournal", err, "q1 ct5:", w2.get(q1, false, 5), " zero-root ct5:", w2.get(zero, false, 5))
-	rd, err := dd2.NodeReader(trieutils.NewContractTrieID(zero))
-	fmt.Println("reader at zero root:", rd != nil, err)
-	if rd != nil {
-		b, err := rd.Node(&felt.Address{}, &trieutils.Path{}, nil, false)
-		fmt.Println("  root node under zero root:", len(b), err)
-	}
+	return false, nil, nil
 }
 
-func short(r felt.StateRootHash) string {
-	s := r.String()
-	if len(s) > 8 {
-		return s[:8]
+func TestTriedbProbe(t *testing.T) {
+	if !vh.Enabled() {
+		t.Skip("driver only")
 	}
-	return s
-}
-
-func TestPathProbeRepeat(t *testing.T) {
-	disk := memory.New()
-	d, _ := pathdb.New(disk, nil)
-	w := &pw{disk, d}
-	var zero felt.StateRootHash
-	r1, err := w.apply(zero, 1, map[uint64]uint64{1: 11}, map[uint64]uint64{5: 55})
-	fmt.Println("r1", short(r1), err)
-	r2, err := w.apply(r1, 2, nil, map[uint64]uint64{6: 66})
-	fmt.Println("r2", short(r2), err)
-	r1b, err := w.apply(r2, 3, nil, map[uint64]uint64{6: 0}) // revert of block 2
-	fmt.Println("r1b", short(r1b), r1b == r1, err)
-	r3, err := w.apply(r1b, 4, nil, map[uint64]uint64{7: 77})
-	fmt.Println("r3", short(r3), err)
-	fmt.Println("cap(r3,3)", capLayers(d, &r3, 3), "r3 ct7:", w.get(r3, false, 7))
-	fmt.Println("cap(r3,2)", capLayers(d, &r3, 2), "r3 ct7:", w.get(r3, false, 7))
+	var in probeInput
+	_ = vh.Input(&in)
+	out := vh.NewResult()
+	defer out.Write()
+	probes := []struct {
+		name, stat string
+		run        func() (bool, *vh.Divergence, error)
+	}{
+		{"disk-root", "disk_root_defect", probeDiskRoot},
+		{"stale-journal", "stale_journal_defect", probeStaleJournal},
+		{"repeated-root", "repeated_root_defect", probeRepeatedRoot},
+	}
+	for _, pr := range probes {
+		if in.Probe != "" && in.Probe != pr.name {
+			continue
+		}
+		present, d, err := func() (present bool, d *vh.Divergence, err error) {
+			defer func() {
+				if p := recover(); p != nil {
+					err = fmt.Errorf("panic: %v", p)
+				}
+			}()
+			return pr.run()
+		}()
+		if err != nil {
+			out.Diverge(vh.Divergence{Key: "triedb:pathdb:probe-failed:" + pr.name, What: "directed scenario " + pr.name + " fails on the real code: " + err.Error(),
+				Input: probeInput{Probe: pr.name}})
+			continue
+		}
+		out.Stats[pr.stat] = present
+		if d != nil {
+			out.Diverge(*d)
+		}
+		out.Done(1, 4)
+	}
 }
